@@ -102,6 +102,40 @@ fn wire_structured(r: &mut StdRng, out: &mut Out, n: usize) {
                 wire_record(out, &v, 0);
             }
         }
+        // labels of exactly 252..256 octets in total, ended by a pointer (to a root octet / to a one-label name): the
+        // 255-octet limit applies across the pointer
+        if r.gen_bool(0.08) {
+            for total in [252usize, 253, 254, 255, 256] {
+                for tgt in [0usize, 1] {
+                    let mut v = vec![0u8, 1, b't', 0];
+                    let start = v.len();
+                    let mut left = total;
+                    while left > 0 {
+                        let ll = if left == 1 { break } else { (left - 1).min(*[63usize, 1, 7, 30].choose(r).unwrap()) };
+                        v.push(ll as u8);
+                        for _ in 0..ll { v.push(b'y'); }
+                        left -= ll + 1;
+                    }
+                    v.push(0xc0);
+                    v.push(tgt as u8);
+                    wire_record(out, &v, start);
+                }
+            }
+        }
+        // messages longer than 1 KiB / 4 KiB / close to the 16 KiB reach of a pointer: the target offset uses all 14 bits
+        if r.gen_bool(0.06) {
+            let t = *[1024usize, 1025, 1279, 1536, 2048, 3000, 4095, 4096, 8192, 12345, 16380, 16383].choose(r).unwrap();
+            let mut v: Vec<u8> = Vec::with_capacity(t + 32);
+            // filler: a chain of one-octet labels "f" closed by a root every 64 octets (a decodable name wherever a wrong offset lands)
+            while v.len() < t { if v.len() % 64 == 62 && v.len() + 1 < t { v.push(0); } else if v.len() + 2 <= t { v.push(1); v.push(b'f'); } else { v.push(0); } }
+            v.truncate(t);
+            let tgt = v.len();
+            v.extend_from_slice(&[3, b't', b'g', b't', 0]);
+            let start = v.len();
+            v.extend_from_slice(&[2, b'p', b'q', 0xc0 | (tgt >> 8) as u8, (tgt & 0xff) as u8]);
+            wire_record(out, &v, start);
+            wire_record(out, &v, tgt);
+        }
     }
 }
 
@@ -121,18 +155,26 @@ fn text(r: &mut StdRng, out: &mut Out, n: usize) {
         w
     };
     for _ in 0..n {
-        let w = gen_name(r);
+        let mut w = gen_name(r);
+        // now and then a pair (a, b) in which a's octets end exactly like b's without a being a subdomain of b
+        let mut forced_b: Option<Vec<u8>> = None;
+        if r.gen_bool(0.04) {
+            let b = gen_name(r);
+            if let Some(t) = tail_trick_wire(&b) { w = t; forced_b = Some(b); }
+        }
         let nm = Name::try_from_uncompressed_all(&w).unwrap();
         let text = nm.to_string();
         let back = match text.parse::<Box<Name>>() { Ok(b) => json!({"out": "ok", "name": b.wire_repr().to_vec()}), Err(_) => json!({"out": "err"}) };
-        let w2 = if r.gen_bool(0.4) {
+        let mut pre_panic = false;
+        let w2 = if let Some(b) = forced_b { b } else if r.gen_bool(0.4) {
             let mut v = w.clone();
             for b in v.iter_mut() { if b.is_ascii_alphabetic() && r.gen_bool(0.5) { *b ^= 0x20; } }
             v
         } else if r.gen_bool(0.3) {
             // a superdomain or a sibling
             let nmx = Name::try_from_uncompressed_all(&w).unwrap();
-            match nmx.superdomain(r.gen_range(0..3)) { Some(s) => s.wire_repr().to_vec(), None => gen_name(r) }
+            let k0 = r.gen_range(0..3);
+            match catch_unwind(move || nmx.superdomain(k0).map(|s| s.wire_repr().to_vec())) { Ok(Some(s)) => s, Ok(None) => gen_name(r), Err(_) => { pre_panic = true; gen_name(r) } }
         } else { gen_name(r) };
         let nm2 = match Name::try_from_uncompressed_all(&w2) { Ok(x) => x, Err(_) => nm.clone() };
         let w2 = nm2.wire_repr().to_vec();
@@ -141,7 +183,10 @@ fn text(r: &mut StdRng, out: &mut Out, n: usize) {
         let mut low = nm.clone();
         low.make_ascii_lowercase();
         let k = r.gen_range(0..4usize);
-        let sup = match nm.superdomain(k) { Some(s) => json!({"out": "ok", "name": s.wire_repr().to_vec()}), None => json!({"out": "none"}) };
+        // a panic of the code under test is an outcome ("out": "panic"), which no step of the specification produces
+        let nmc = nm.clone();
+        let sup = match catch_unwind(move || nmc.superdomain(k).map(|s| s.wire_repr().to_vec())) {
+            Ok(Some(s)) if !pre_panic => json!({"out": "ok", "name": s}), Ok(None) if !pre_panic => json!({"out": "none"}), _ => json!({"out": "panic"}) };
         let labels: Vec<Vec<u8>> = nm.labels().map(|l| l.octets().to_vec()).collect();
         out.emit(json!({"ev": "Name", "a": w, "text": text.as_bytes().to_vec(), "back": back, "b": w2, "eq": *nm == *nm2, "cmp": ord, "cmprev": ord_rev,
             "heq": h(&nm) == h(&nm2), "sub": nm.eq_or_subdomain_of(&nm2), "lower": low.wire_repr().to_vec(), "nlabels": nm.len(),
